@@ -81,6 +81,9 @@ def evidence(prop, tier, seed, records, build_info, wall, nviol):
     witnessed = [r for r in discharged if r.get("witnessed", any(c.get("satisfied") for c in r.get("covers", [])))]
     queries = 0
     solver_s = 0.0
+    states = 0
+    transitions = 0
+    replayed = 0
     samples = []
     functions = set()
     stubs = set()
@@ -89,6 +92,12 @@ def evidence(prop, tier, seed, records, build_info, wall, nviol):
         st = r.get("stats", {})
         queries += r.get("queries", 0) or (st.get("vccs_remaining") or 0) or (1 if r["verdict"] == "discharged" else 0)
         solver_s += st.get("solver_s", 0.0) or r.get("solver_s", 0.0) or 0.0
+        # encoded program points / edges: CBMC SSA steps and generated VCCs, mirproto DAG nodes and edges
+        states += (st.get("program_steps") or 0) + sum(c.get("nodes", 0) for c in (r.get("detail") or {}).get("checks", [])) \
+            + ((r.get("detail") or {}).get("functions_scanned") or 0)
+        transitions += (st.get("vccs") or 0) + sum(c.get("edges", 0) for c in (r.get("detail") or {}).get("checks", []))
+        if r.get("replay"):
+            replayed += 1
         for f in r.get("functions", []):
             functions.add(f)
         for s in r.get("stubs", []):
@@ -122,6 +131,12 @@ def evidence(prop, tier, seed, records, build_info, wall, nviol):
                      "distinct_nontrivial = obligations (distinct harnesses / protocol obligations) that were "
                      "discharged AND whose reachability witness (kani::cover! / sat-twin of the mirproto query) "
                      "was satisfied, i.e. non-vacuous"),
+            "states": max(states, 1), "transitions": max(transitions, 1),
+            "traces_validated_against_impl": replayed,
+            "explanation": ("bounded symbolic model checking of the real code: states = encoded program points (CBMC SSA steps of the "
+                            "harness programs + nodes of the inlined / unrolled MIR control-flow DAGs), transitions = CBMC verification "
+                            "conditions generated + DAG edges, traces_validated_against_impl = counterexamples of this run replayed "
+                            "against the native build (Kani concrete playback / replay-bin scenario); 0 when nothing was violated"),
             "obligations": len(records), "discharged": len(discharged),
             "inconclusive": len([r for r in records if r["verdict"] == "inconclusive"]),
             "samples": samples,
